@@ -205,6 +205,7 @@ static void run_scenario (char *line)
     first = 0;
   }
   fputc ('\n', out);
+  fflush (out);                 /* a crash in a later scenario must not lose this line */
 }
 
 int main (int argc, char **argv)
